@@ -244,8 +244,12 @@ def gen_for_range(g, r, a, f, l, nkeys, thorough, rich):
     for m in range(f, l + 1):
         g.add("rotate", a, f, l, "m=%d" % m, FWD)
         g.add("rotate_copy", a, f, l, "m=%d" % m, FWD)
-    for it in BIDI:
+    for it in BIDI + ["rptr"]:          # rptr: the range seen through reverse_iterators (random-access branch, `first < last`)
         g.add("reverse", a, f, l, "it=" + it)
+    if f == 0 and l == len(a) and len(a) <= 3:
+        for i_ in range(len(a) + 1):
+            for j_ in range(len(a) + 1):
+                g.add("rit_rel", a, f, l, "i=%d j=%d" % (i_, j_))
     g.add("reverse_copy", a, f, l, "", BIDI)
     g.add("for_each", a, f, l, "", IN)
     g.add("transform", a, f, l, "", IN)
